@@ -15,15 +15,35 @@ var Assumptions = []string{
 	"amounts, reserves and depths are the stated bounded sets; values outside them (and uint64 overflow of the total supply, property C04) are not explored",
 }
 
-var Wiring = map[string]any{}
+var Wiring = map[string]any{
+	"part_A":                            "one own-root chain; key 0 is the only validator, staked for committees 1 and 2. mode tx: sell orders in the book of nested chain id 2, committee instructions in a certificate-results TRANSACTION (QC for chain 2 signed by committee 2 as staked on the root chain at the QC's root height, block stripped, tx signed by the QC's proposer) -> HandleMessageCertificateResults -> HandleCertificateResults -> HandleCommitteeSwaps(orders,2). mode own: sell orders in the chain's own book (id 1), instructions in the results of the block's own certificate (BlockSpec.Results), applied by the next block's BeginBlock -> HandleCertificateResults -> HandleCommitteeSwaps(orders,1); this path bypasses CertificateResult.CheckBasic/checkOrders so duplicates inside one list reach the handler. Both paths are faithful; ProcessRootChainOrderBook (how an honest committee derives the instructions from lock/close memo transactions) is not in the loop - the harness is an arbitrary committee.",
+	"part_A_entitlement":                "read from fsm/message.go and fsm/swap.go: create and edit-up debit order.SellersSendAddress; edit-down refunds the difference and delete refunds AmountForSale to SellersSendAddress; close pays AmountForSale to the order's BuyerReceiveAddress (the lock in force; with lock+close in one certificate the lock of that certificate, because locks are applied before closes); reset pays nobody",
+	"part_B":                            "root chain R (id 1, own root) and nested chain N (id 2, root id 1), two real FSMs on real stores in ONE worker process, stepped strictly in turn. One recipe = one tick = N block then R block. N block: FSM.SetRootDexCache(R.FSM.GetDexBatch(2,true) through its JSON form = what RCManager.GetDexBatch returns) before ApplyBlock, as controller.ProduceProposal/ValidateProposal/CommitCertificate do; results of the block built by a mirror of controller.HandleDex on the post-apply FSM (DexBatch = N's locked batch, RootDexBatch = the root snapshot, with pool points and LivenessFallback when falling back); certificate with a root-chain RootHeight signed by committee 2 as staked on R. R block: certificate-results tx made from N's certificate of this tick (unless dropped), then the R-side user tx.",
+	"part_B_block_lru":                  "store.blockCache is process-wide and keyed by height only, and both chains pass through the same heights: without care N's LoadBlock(h-1) (last-block hash in the header, pseudo-random order of swap execution) returns R's block. Before every block the harness re-primes the LRU slot of height-1 with the stepping chain's own block (env.Chain.PrimeBlockCache: public IndexBlock, which refreshes the slot, then Reset, which drops the pending index write). No repo hook was added.",
+	"part_B_deviations_from_controller": "the locked batch is re-sent with every N certificate (controller: every lib.TriggerModuloBlocks=5 blocks) - with the drop recipe every real delivery schedule is a sub-schedule; the liveness fallback may be signalled as soon as N's locked batch is one block old and unanswered (controller: lib.LivenessFallbackBlocks=60 blocks, on a trigger block); the certificate-results tx is placed before the user tx in R's block",
+	"blocks":                            "env.Chain.StepFast: one ApplyBlock with replica semantics when every tx succeeds, otherwise the proposer path (failing txs dropped on a copy) followed by the replica path - the committed block is the same",
+}
 
-var NotCovered = []string{}
+var NotCovered = []string{
+	"mempool, p2p, bft and the real controller (its HandleSwaps/HandleDex/SendCertificateResultsTx are mirrored, not executed); ProcessRootChainOrderBook/ParseBlockForLockAndCloseOrders (honest derivation of lock/close/reset from memo transactions)",
+	"LP-holder cap logic (handleCappedBatchDeposit, eviction at 5000 providers), the 250-orders-per-block settlement cap, batches of more than 2 orders, more than 2 open sell orders / 2 sellers, order amounts other than {min-1,min,min+1,10^6}",
+	"fairness of LP point minting (how many points a deposit earns): the property only fixes the sum of points and the share bound of withdrawals, so the mutant 'deposit points computed after the pool update' is NOT caught",
+	"the pseudo-random execution order of swaps inside a batch is whatever the previous block hash yields on the explored path; other orders are not enumerated",
+	"stale root view combined with a user transaction or with the fallback in the same tick; re-ordered (older-after-newer) certificate-results transactions",
+	"uint64 overflow of pools/supply (property C04); reserves other than the four stated pairs; paths longer than the depth bound",
+}
 
 // RunFn is what main hands to Plan: run one BFS.
 type RunFn func(part, cfg string, depth int, names func(p []int) []string, numOps int, opsFor func(path []int, info string) []int, maxFrontier int)
 
-// Plan lays out the searches of a tier.
+// Plan lays out the searches of a tier in priority order; the soft deadline cuts the tail
+// (reported as exhaustive=false with the depth completed per search).
+//
+// Sizing (measured with GOMAXPROCS=1 on a warmed-up worker): part A ~8 ms per block, part B
+// ~25 ms per tick (two blocks, two scans); a world costs ~5 ms (A) / ~12 ms (B incl. warm-up
+// block) to create. Quick is sized for ~1000 core-seconds, thorough for ~20000.
 func Plan(thorough bool, run RunFn) {
+	only := os.Getenv("C20_ONLY")
 	alphaA := AAlphabet(thorough)
 	namesA := func(p []int) []string {
 		var n []string
@@ -31,18 +51,6 @@ func Plan(thorough bool, run RunFn) {
 			n = append(n, alphaA[i].String())
 		}
 		return n
-	}
-	dA := 4
-	if thorough {
-		dA = 5
-	}
-	if os.Getenv("C20_ONLY") != "B" {
-		for _, mode := range []string{"tx", "own"} {
-			run("A", mode, dA, namesA, len(alphaA), nil, 0)
-		}
-	}
-	if os.Getenv("C20_ONLY") == "A" {
-		return
 	}
 	alphaB := BAlphabet(thorough)
 	namesB := func(p []int) []string {
@@ -52,13 +60,121 @@ func Plan(thorough bool, run RunFn) {
 		}
 		return n
 	}
-	dB := 3
-	if thorough {
-		dB = 4
+	// part A: full alphabet up to fullDepth, then only settlement recipes (certificates, deletes,
+	// edits of #0) for the last step - the "exactly once" questions live there
+	aOps := func(fullDepth int) func(path []int, info string) []int {
+		base := AOpsFor(thorough)
+		return func(path []int, info string) []int {
+			ops := base(path, info)
+			if len(path) < fullDepth {
+				return ops
+			}
+			var out []int
+			for _, i := range ops {
+				o := alphaA[i]
+				if o.Kind == "cert" || o.Kind == "delete" || (o.Kind == "edit" && o.K == 0 && o.Amt == AMin) {
+					out = append(out, i)
+				}
+			}
+			return out
+		}
 	}
-	for _, cfg := range BConfigs {
-		run("B", cfg.Name, dB, namesB, len(alphaB), nil, 0)
+	A := func(mode string, depth, fullDepth int) {
+		if only == "" || only == "A" {
+			run("A", mode, depth, namesA, len(alphaA), aOps(fullDepth), 0)
+		}
 	}
+	// part B: full alphabet up to fullDepth, then only pipeline recipes (let the pipeline drain)
+	bOps := func(fullDepth int) func(path []int, info string) []int {
+		return func(path []int, _ string) []int {
+			var out []int
+			for i, o := range alphaB {
+				if len(path) < fullDepth || o.Chain == "" {
+					out = append(out, i)
+				}
+			}
+			return out
+		}
+	}
+	B := func(cfg string, depth, fullDepth int) {
+		if only == "" || only == "B" {
+			run("B", cfg, depth, namesB, len(alphaB), bOps(fullDepth), 0)
+		}
+	}
+	// directed slice around the liveness fallback (needs 4-5 ticks, beyond the full-alphabet depth of
+	// the quick tier): [user op][tick|drop][fallback|fallback+drop|drop|tick][tick] and
+	// [drop][N-side user op][drop|tick][fallback|fallback+drop][tick]
+	isEnv := func(o BOp, kinds ...string) bool {
+		for _, k := range kinds {
+			if o.Kind == k {
+				return true
+			}
+		}
+		return false
+	}
+	fams := [][]func(o BOp) bool{
+		{func(o BOp) bool { return o.Chain != "" }, func(o BOp) bool { return isEnv(o, "tick", "drop") },
+			func(o BOp) bool { return isEnv(o, "fallback", "fallback+drop", "drop", "tick") }, func(o BOp) bool { return isEnv(o, "tick") }},
+		{func(o BOp) bool { return isEnv(o, "drop") }, func(o BOp) bool { return o.Chain == "N" }, func(o BOp) bool { return isEnv(o, "drop", "tick") },
+			func(o BOp) bool { return isEnv(o, "fallback", "fallback+drop") }, func(o BOp) bool { return isEnv(o, "tick") }},
+	}
+	famOps := func(path []int, _ string) []int {
+		var out []int
+		for i, o := range alphaB {
+			ok := false
+			for _, f := range fams {
+				if len(path) >= len(f) {
+					continue
+				}
+				match := true
+				for j, pi := range path {
+					if !f[j](alphaB[pi]) {
+						match = false
+						break
+					}
+				}
+				if match && f[len(path)](o) {
+					ok = true
+				}
+			}
+			if ok {
+				out = append(out, i)
+			}
+		}
+		return out
+	}
+	F := func(cfg string) {
+		if only == "" || only == "B" || only == "F" {
+			run("B", cfg+"#fallback-slice", 5, namesB, len(alphaB), famOps, 0)
+		}
+	}
+	if !thorough {
+		A("tx", 4, 3)
+		F("1e3x1e3")
+		B("1e3x1e3", 3, 3)
+		A("own", 3, 3)
+		B("2p63x2p63", 2, 2)
+		B("1x2p62", 2, 2)
+		B("1x1", 2, 2)
+		// deeper only if the box is idle enough
+		B("2p63x2p63", 3, 3)
+		B("1x2p62", 3, 3)
+		B("1x1", 3, 3)
+		B("1e3x1e3", 4, 3)
+		return
+	}
+	A("tx", 5, 4)
+	F("1e3x1e3")
+	F("2p63x2p63")
+	F("1x2p62")
+	B("1e3x1e3", 4, 3)
+	A("own", 5, 4)
+	B("2p63x2p63", 4, 3)
+	B("1x2p62", 4, 3)
+	B("1x1", 4, 4)
+	B("1e3x1e3", 5, 4)
+	A("tx", 5, 5)
+	B("2p63x2p63", 5, 4)
 }
 
 // PathA maps recipe names back to alphabet indices (replay artefacts store names).
